@@ -190,7 +190,7 @@ def one(job):
             rec["suite"] = "does-not-compile"
             return rec
         open(os.path.join(tmp, rel), "w").write(new)
-        env = dict(os.environ, PYTHONPATH=tmp, MPLBACKEND="Agg", OMP_NUM_THREADS="1", OPENBLAS_NUM_THREADS="1")
+        env = dict(os.environ, PYTHONPATH=tmp, MPLBACKEND="Agg", OMP_NUM_THREADS="1", OPENBLAS_NUM_THREADS="1", SUITE_TIMEOUT="60")
         first = GUESS.get(os.path.basename(rel) if "quantum" not in rel or "drawing" not in rel else "qdrawing", [])
         if first:                                   # fail fast on the module's own tests before the whole suite decides
             q = run(["/venv/bin/python", "-m", "pytest", "-x", "-q", "-p", "no:cacheprovider", "--timeout=60"] + DESELECT + ["test/%s" % f for f in first], cwd=tmp, env=env, timeout=1200)
